@@ -437,6 +437,16 @@ func runParseCase(c *Ctx, expr string, label string) parseOut {
 		c.count("empty")
 		return o
 	}
+	if len(o.initial) > 80 {
+		// the recogniser is cubic; long sentences are checked against the model and the post-order oracle only
+		c.count("grammar:too-long-for-the-recogniser")
+		if o.code != "" {
+			c.model(op, "err", "errprefix")
+			return o
+		}
+		c.model(op, impl, "model")
+		return o
+	}
 	acc := cfgAccepts(typesOfInitial(o.initial))
 	if acc {
 		c.count("grammar:sentence")
